@@ -442,6 +442,16 @@ namespace
         if (msg.empty()) ctx.violation("C12/exception-without-message/" + c.kind, detail("rejected with an empty message"));
         if (c.expect == MUST_BUILD) ctx.violation("C12/valid-document-rejected/" + c.kind, detail("a valid document was rejected: " + msg.substr(0, 300)));
         if (c.expect == SAME_AS_CANONICAL) ctx.violation("C12/formatting-variant-rejected/" + c.kind, detail("a formatting variant of a valid file was rejected: " + msg.substr(0, 300)));
+        // the verdict belongs to the bytes, not to the history of the process: the same content offered again (an application that retries,
+        // a service that re-reads the file) must be rejected again
+        static const int c_again = Ctx::counter_id("rejected_documents_offered_a_second_time");
+        ctx.count(c_again);
+        bool rejected_again = false;
+        try { auto w2 = make_world(c.text, 1, "again"); }
+        catch (const std::exception &) { rejected_again = true; }
+        catch (...) { ctx.violation("C12/foreign-exception/" + c.kind, detail("the second construction from the same content threw something that is not a std::exception")); return; }
+        if (!rejected_again)
+          ctx.violation("C12/rejected-content-is-accepted-when-offered-again/" + c.kind, detail("the first construction from this content threw (" + msg.substr(0, 200) + "), a second construction from the same content in the same process built a world"));
       }
     else
       {
@@ -481,7 +491,7 @@ int main(int argc, char **argv)
   spec.assumptions = {"schema oracle: Python jsonschema (Draft 2020-12 validator) against /verif/oracles/published_schema.json, used one way only: schema-invalid => must be rejected",
                       "worlds that were built are probed with 160 queries so that inconsistent tables are exercised", "a crash, sanitizer report or 120 s watchdog expiry is attributed to the candidate being loaded"
                      };
-  spec.counters = {"documents_built", "documents_rejected_with_exception", "schema_invalid_by_python", "schema_valid_by_python", "built_worlds_probed"};
+  spec.counters = {"rejected_documents_offered_a_second_time", "documents_built", "documents_rejected_with_exception", "schema_invalid_by_python", "schema_valid_by_python", "built_worlds_probed"};
   spec.quick_deadline_s = 600; spec.thorough_deadline_s = 3000;
   return driver(argc, argv, spec, [](const std::string &tier)
   {
